@@ -303,6 +303,7 @@ func (l *listener) Stop() error {
 	}
 	l.mu.Unlock()
 
+	verifPause("listener.stop.taken", l)
 	if ln != nil {
 		ln.Close()
 	}
